@@ -85,7 +85,7 @@ fn floors(prop: &str, st: &Stats) -> Vec<String> {
         "C05" => { need("C05", "matrix_probes"); need("C05", "matrix_probes_refused"); }
         "C06" => { need("C06", "exit_probes"); need("C06", "exit_probes_on_non_lot_remainder"); }
         "C07" => { need("C07", "accepted_ask_funds"); need("C07", "accepted_bid_funds"); need("C07", "accepted_ask_pull"); need("C07", "accepted_bid_pull"); }
-        "C08" => need("C08", "accepted_approvals"),
+        "C08" => { need("C08", "accepted_approvals"); need("C08", "approve_probes"); }
         "C09" => { need("C09", "held_fee_ties"); need("C09", "entry_fee_rounds_to_zero"); }
         "C10" => need("C10", "marker_assignments_enumerated"),
         "C12" => { need("C12", "accepted_modifications"); need("C12", "matrix_requests"); }
@@ -431,6 +431,7 @@ fn run_replay(path: &str, prop: &'static str) -> i32 {
     opts.auth_pct = 0;
     opts.boundary_pct = 0;
     opts.revb_pct = 0;
+    opts.approve_pct = 0;
     let mut st = Stats::default();
     let mut h = History::new("replay", 1);
     let ops: Vec<sim::Op> = v["ops"].as_array().map_or(vec![], |a| a.iter().filter_map(sim::Op::from_json).collect());
